@@ -17,6 +17,8 @@ class PageContext(BaseModel):
     page_number: int
     total_pages: int
     data: pl.DataFrame
+    # Index of the page's first row in the section's data
+    start_row: int = 0
 
     # Page State
     is_first_page: bool
